@@ -736,8 +736,11 @@ def _state_part(line):
     subscriber the CHF had not seen) is no account, reservation or record change and is left out"""
     i = line.find(" bal=")
     st = line[i:] if i >= 0 else line
-    st = re.sub(r" [0-9a-f]+ money=- cdr=- rec=-(?= |$)", "", st)
-    return re.sub(r" nue=\d+", "", st)
+    m = re.match(r"^(.*?) nue=\d+ (.*)$", st)
+    if not m:
+        return st
+    ues = re.sub(r"(^| )[0-9a-f]+ money=- cdr=- rec=-(?= |$)", "", m.group(2)).strip()
+    return m.group(1) + " ues=" + (ues if ues not in ("", "-") else "-")
 
 
 def explore_c12(ctx, res, replay_ops=None):
